@@ -4,6 +4,7 @@ import (
 	"fmt"
 	"go/token"
 	"go/types"
+	"strings"
 	"sort"
 
 	"fpcheck/internal/core"
@@ -527,4 +528,169 @@ func flagSetOf(p *core.Prog, call *ssa.Call) (field, owner string, ok bool) {
 		return "", "", false
 	}
 	return core.FieldName(fa.X.Type(), fa.Field), core.Path(call.Call.Args[0]), true
+}
+
+
+// sharedOrigin: some origin of v (followed through helpers, phis and callback results) is read out of package-level
+// state - a global variable, or a field / element reached from one through loads. A constructor that stores such a value
+// (a channel, a client, a settings object) into the object it builds makes all instances built that way share it.
+func sharedOrigin(p *core.Prog, v ssa.Value) string {
+	rooted := func(x ssa.Value) string {
+		for depth := 0; depth < 8; depth++ {
+			switch y := x.(type) {
+			case *ssa.Global:
+				return y.Name()
+			case *ssa.UnOp:
+				if y.Op != token.MUL {
+					return ""
+				}
+				x = y.X
+			case *ssa.FieldAddr:
+				x = y.X
+			case *ssa.Field:
+				x = y.X
+			case *ssa.IndexAddr:
+				x = y.X
+			case *ssa.ChangeType:
+				x = y.X
+			case *ssa.MakeInterface:
+				x = y.X
+			default:
+				return ""
+			}
+		}
+		return ""
+	}
+	seen := map[ssa.Value]bool{}
+	var walk func(v ssa.Value, depth int) string
+	walk = func(v ssa.Value, depth int) string {
+		if depth > 4 {
+			return ""
+		}
+		for _, lf := range core.Origins(p, v, nil) {
+			lv := lf.Val
+			if seen[lv] {
+				continue
+			}
+			seen[lv] = true
+			switch x := lv.(type) {
+			case *ssa.UnOp:
+				if x.Op != token.MUL {
+					continue
+				}
+				if g := rooted(x); g != "" {
+					return g
+				}
+				// a field of (or the whole of) a local variable: what was stored into the variable, in particular a
+				// by-value copy of a package-level struct, whose reference-typed members stay shared
+				base := x.X
+				if fa, isFA := base.(*ssa.FieldAddr); isFA {
+					base = fa.X
+				}
+				if a, isA := base.(*ssa.Alloc); isA {
+					for _, ref := range *a.Referrers() {
+						if st, isS := ref.(*ssa.Store); isS && st.Addr == ssa.Value(a) {
+							if g := walk(st.Val, depth+1); g != "" {
+								return g
+							}
+						}
+					}
+				}
+			case *ssa.Parameter:
+				// what callers pass for it
+				fn := x.Parent()
+				idx := -1
+				for i, q := range fn.Params {
+					if q == x {
+						idx = i
+					}
+				}
+				if idx < 0 || fn.Parent() != nil {
+					continue
+				}
+				for _, f := range p.Funcs {
+					var hit string
+					core.Instrs(f, func(ins ssa.Instruction) {
+						call, isC := ins.(*ssa.Call)
+						if !isC || hit != "" || call.Call.IsInvoke() || core.Callee(&call.Call) != fn || idx >= len(call.Call.Args) {
+							return
+						}
+						hit = walk(call.Call.Args[idx], depth+1)
+					})
+					if hit != "" {
+						return hit
+					}
+				}
+			}
+		}
+		return ""
+	}
+	return walk(v, 0)
+}
+
+// onceInitialised: v is a load of an unexported package-level variable whose only write in the program is the one in
+// the package initialiser (and whose address goes nowhere else): the value stored there; nil otherwise.
+func onceInitialised(v ssa.Value) ssa.Value {
+	u, ok := core.Unwrap(v).(*ssa.UnOp)
+	if !ok || u.Op != token.MUL {
+		return nil
+	}
+	g, ok := u.X.(*ssa.Global)
+	if !ok || g.Object() == nil || g.Object().Exported() || g.Pkg == nil {
+		return nil
+	}
+	var val ssa.Value
+	n := 0
+	var scan func(f *ssa.Function)
+	bad := false
+	scan = func(f *ssa.Function) {
+		for _, b := range f.Blocks {
+			for _, ins := range b.Instrs {
+				for _, op := range ins.Operands(nil) {
+					if *op != ssa.Value(g) {
+						continue
+					}
+					switch x := ins.(type) {
+					case *ssa.Store:
+						if x.Addr == ssa.Value(g) && x.Val != ssa.Value(g) {
+							n++
+							val = x.Val
+							if f.Synthetic == "" || !strings.HasPrefix(f.Synthetic, "package init") {
+								bad = true
+							}
+							continue
+						}
+						bad = true
+					case *ssa.UnOp:
+						if x.Op != token.MUL {
+							bad = true
+						}
+					default:
+						bad = true
+					}
+				}
+			}
+		}
+		for _, a := range f.AnonFuncs {
+			scan(a)
+		}
+	}
+	for _, m := range g.Pkg.Members {
+		switch x := m.(type) {
+		case *ssa.Function:
+			scan(x)
+		case *ssa.Type:
+			if named, isN := x.Type().(*types.Named); isN {
+				for i := 0; i < named.NumMethods(); i++ {
+					if mf := g.Pkg.Prog.FuncValue(named.Method(i)); mf != nil {
+						scan(mf)
+					}
+				}
+			}
+		}
+	}
+	if bad || n != 1 {
+		return nil
+	}
+	return val
 }
